@@ -561,6 +561,20 @@ func (env *SpecEnv) call(x *SCall) Val {
 			// isle(endian): the binary.ByteOrder value is binary.LittleEndian
 			v := env.eval(x.Args[0])
 			return spec1(Eq(v.L[0], Int(int64(ex.byteOrderTag("littleEndian")))))
+		case "fnis":
+			// fnis(f, <function key>): the function value f is the named top-level function or
+			// capture-free function literal (e.g. (*Channel).NextPackageUntil$1)
+			v := env.eval(x.Args[0])
+			key := strings.TrimSpace(x.Raw[1])
+			fn, ok := ex.P.funcs[key]
+			if !ok {
+				key = canonFuncKey(key, env.pkg, "func")
+				fn, ok = ex.P.funcs[key]
+			}
+			if !ok {
+				sfail("fnis: unknown function %s", key)
+			}
+			return spec1(Eq(v.L[0], ex.fnConst(fn)))
 		case "typetag":
 			// typetag(*T): the dynamic type tag interface values holding a *T carry
 			t := env.parseType(x.Raw[0])
